@@ -2,6 +2,8 @@ import CoercionModel.Model.Store
 import CoercionModel.Generated.F3
 import CoercionModel.Model.SkeletonsCosmos
 import CoercionModel.Generated.F11
+import CoercionModel.Model.SkeletonsSqlite
+import CoercionModel.Generated.F13
 set_option linter.unusedSimpArgs false
 /-
   C13 — Storage round trip: Read returns exactly what was last written.
@@ -123,6 +125,11 @@ set_option maxRecDepth 100000 in
 /-- CosmosDB backend: the functions that implement this property there still have the shape that was read
     against the model (skeletons regenerated from /repo on every run, Model/SkeletonsCosmos). A static tie
     only: the repository's fake Cosmos client cannot judge this part dynamically. -/
-theorem facts_cosmos_skeleton : Generated.F11.roundtrip = SkeletonsCosmos.roundtrip := by decide +kernel
+theorem facts_cosmos_skeleton : Generated.F11.roundtrip = SkeletonsCosmos.roundtrip := by rfl
+
+/-- SQLite backend: the functions and the SQL text that implement this property (round trip) still have the shape that was
+    read against the model (regenerated from /repo on every run, Model/SkeletonsSqlite). A static tie on top of the
+    dynamic differential: it also sees changes no generated input exercises. -/
+theorem facts_sqlite_skeleton : Generated.F13.roundtrip = SkeletonsSqlite.roundtrip := by rfl
 
 end Coercion.C13
